@@ -280,9 +280,73 @@ def _worst(got, want, ok, xs):
     return f"first mismatch at support={np.asarray(xs).reshape(-1)[i]!r}: got {np.asarray(got).reshape(-1)[i]!r} want {np.asarray(want).reshape(-1)[i]!r}"
 
 
+def _dist_poisson_zero(case):
+    """rate == 0: Poisson.validate documents it as valid (the degenerate distribution, all mass at
+    k = 0) and logpmf uses xlogy for exactly this case.  Only identities that the documented formulas
+    define there: pmf = [1, 0, 0, ...], log pmf = [0, -inf, ...], cdf = 1, mean = variance = 0."""
+    from inferno.stats import Poisson
+
+    dtype = case["dtype"]
+    eps = EPS[dtype]
+    K = 15
+    k = np.arange(K + 1)
+    kt = torch.tensor(k, dtype=TD[dtype])
+    rate = _arg(0.0, case["form"], dtype)
+    what = f"Poisson(rate=0, {dtype}, rate as {case['form']})"
+    with impl("Poisson.pmf/logpmf/cdf/logcdf at rate 0"):
+        pmf = Poisson.pmf(kt, rate)
+        lpmf = Poisson.logpmf(kt, rate)
+        cdf = Poisson.cdf(kt, rate)
+        lcdf = Poisson.logcdf(kt, rate)
+        mean = Poisson.mean(rate)
+        var = Poisson.variance(rate)
+    for nm, t in (("pmf", pmf), ("logpmf", lpmf), ("cdf", cdf), ("logcdf", lcdf)):
+        check(tuple(t.shape) == (K + 1,) and t.dtype == TD[dtype], f"poisson:{nm}:shape",
+              lambda: f"{what}: {nm} shape {tuple(t.shape)} dtype {t.dtype}, want ({K + 1},) {dtype}")
+    pmf, lpmf, cdf, lcdf = map(_np, (pmf, lpmf, cdf, lcdf))
+    gm, gv = float(_np(mean).reshape(-1)[0]), float(_np(var).reshape(-1)[0])
+    for nm, a in (("pmf", pmf), ("logpmf", lpmf), ("cdf", cdf), ("logcdf", lcdf), ("mean", np.array([gm])), ("variance", np.array([gv]))):
+        check(not np.isnan(a).any(), "poisson:rate0:nan", lambda: f"{what}: {nm} contains NaN: {a.tolist()}", info={"fn": nm})
+    tol = 8 * eps
+    ref = M.poisson_ref(k, 0.0)  # scipy: pmf [1, 0, ...], cdf 1
+    want_pmf = np.zeros(K + 1)
+    want_pmf[0] = 1.0
+    ok = _close(pmf, want_pmf, tol) & _close(pmf, ref["pmf"], tol)
+    check(ok.all(), "poisson:rate0:pmf", lambda: f"{what}: pmf = {pmf.tolist()}, want all mass at k = 0")
+    with np.errstate(over="ignore"):
+        elp = np.exp(lpmf)  # -inf -> 0
+    ok = _close(elp, pmf, tol)
+    check(ok.all(), "poisson:exp-logpmf", lambda: f"{what}: exp(logpmf) = {elp.tolist()} != pmf = {pmf.tolist()}")
+    check(abs(lpmf[0]) <= tol and bool((lpmf[1:] == -np.inf).all()), "poisson:rate0:logpmf",
+          lambda: f"{what}: logpmf = {lpmf.tolist()}, want [0, -inf, -inf, ...]")
+    cs = np.cumsum(pmf)
+    ok = _close(cs, cdf, 4 * tol)
+    check(ok.all(), "poisson:sum-cdf", lambda: f"{what}: sum_(j<=k) pmf(j) != cdf(k); " + _worst(cs, cdf, ok, k))
+    check(abs(cs[-1] - 1.0) <= 4 * tol, "poisson:sum-one", lambda: f"{what}: pmf sums to {cs[-1]!r}")
+    ok = _close(cdf, np.ones(K + 1), tol) & _close(cdf, ref["cdf"], tol)
+    check(ok.all(), "poisson:rate0:cdf", lambda: f"{what}: cdf = {cdf.tolist()}, want 1 everywhere")
+    ok = _close(lcdf, np.log(np.maximum(cdf, 1e-300)), tol)
+    check(ok.all(), "poisson:logcdf", lambda: f"{what}: logcdf = {lcdf.tolist()} != log(cdf)")
+    m1 = float((k * pmf).sum())
+    m2 = float((k * k * pmf).sum()) - m1 * m1
+    check(abs(gm) <= tol and abs(gm - m1) <= 4 * tol, "poisson:mean", lambda: f"{what}: mean() = {gm!r}, first moment of pmf = {m1!r}, want 0")
+    check(abs(gv) <= tol and abs(gv - m2) <= 4 * tol, "poisson:variance", lambda: f"{what}: variance() = {gv!r}, second central moment of pmf = {m2!r}, want 0")
+    # all-python-scalar calls
+    k0 = int(case["k0"]) % (K + 1)
+    with impl("Poisson.pmf/cdf(float, 0.0)"):
+        p0 = float(Poisson.pmf(float(k0), 0.0))
+        c0 = float(Poisson.cdf(float(k0), 0.0))
+    check(p0 == p0 and abs(p0 - want_pmf[k0]) <= 8 * EPS["float32"], "poisson:rate0:pmf",
+          lambda: f"Poisson.pmf({float(k0)}, 0.0) = {p0!r}, want {want_pmf[k0]!r}")
+    check(c0 == c0 and abs(c0 - 1.0) <= 8 * EPS["float32"], "poisson:rate0:cdf", lambda: f"Poisson.cdf({float(k0)}, 0.0) = {c0!r}, want 1.0")
+    return {"nt": False, "cls": ["poisson", f"dtype={dtype}", "rate=0"]}
+
+
 def _dist_poisson(case):
     from inferno.stats import Poisson
 
+    if float(case["rate"]) == 0.0:
+        return _dist_poisson_zero(case)
     dtype = case["dtype"]
     eps = EPS[dtype]
     lam = float(ND[dtype](case["rate"]))  # the value the implementation sees
@@ -482,7 +546,7 @@ def dist_case(draw, tier="quick"):
     c = {"dist": dist, "dtype": dtype, "form": form}
     if dist == "poisson":
         c["rate"] = draw(st.one_of(
-            st.sampled_from([0.01, 0.1, 0.5, 1.0, 2.0, 3.0, 4.5, 10.0, 25.0, 60.0]),
+            st.sampled_from([0.0, 0.01, 0.1, 0.5, 1.0, 2.0, 0.0, 3.0, 4.5, 10.0, 25.0, 60.0]),
             st.floats(0.01, 80.0 if tier == "quick" else 200.0, allow_nan=False).map(_r4),
         ))
         c["k0"] = draw(st.integers(0, 300))
@@ -712,7 +776,7 @@ LEGS = [
         name="dist", run=run_dist, strategy=lambda tier: dist_case(tier),
         quick=600, thorough=8000, quick_shards=4, thorough_shards=8, nt_floor=0.5,
         rule="Poisson (support 0..rate+12 sqrt(rate)+15) / Normal / LogNormal (4801-point grid over +-12 sd) "
-             "with palette and drawn parameters, float32/float64, parameters as float / 0-dim / (1,) tensor; "
+             "with palette and drawn parameters (Poisson incl. the degenerate rate 0, counted trivial), float32/float64, parameters as float / 0-dim / (1,) tensor; "
              "non-trivial when the density is >= 1e-6 on >= 2 (Poisson) / >= 100 (continuous) grid points",
     ),
     Leg(
@@ -735,7 +799,7 @@ ASSUMPTIONS = [
     "(8-16 ulp of the working dtype times the documented formula's conditioning)",
     "linear extrapolation is exercised with t_s >= dt/64 (forward) and t_s <= dt(1 - 1/64) (backward): the documented division is unbounded at the excluded end",
     "nearest pairs within 1e-5 of t_s = dt/2 are counted ambiguous unless t_s == dt/2 exactly with dyadic dt",
-    "Poisson rate > 0 (the class documents rate in R+*), integer supports; LogNormal scale <= 1.5 so that the 4801-point grid captures the second moment",
+    "Poisson integer supports; rate >= 0 with rate == 0 (accepted by Poisson.validate: the degenerate distribution) as its own stratum judged by the identities defined there (pmf = [1,0,..], cdf = 1, mean = variance = 0, no NaN); Normal / LogNormal have only open parameter boundaries (validate rejects scale 0, non-finite values, LogNormal support 0); LogNormal scale <= 1.5 so that the 4801-point grid captures the second moment",
     "scipy.stats is trusted as the second opinion for pmf/pdf/cdf values; quadrature is a trapezoid rule in the Gaussian coordinate on the actual float abscissae",
     "Victor-Purpura: spike-time vectors are strictly increasing; cost = inf follows the function's documented warning (n + m, identity law excluded)",
 ]
